@@ -7,16 +7,17 @@ perception works component by component, hence `decompose S (A ⊔ B)` is additi
 numbered as RDKit numbers a mixture (`C04_decompose_mixture`, via C03).
 Oracle (relational): implementation on 'A.B' vs implementation on A and on B.
 """
-import itertools
+import itertools, collections
 from rdkit import Chem
-from . import common, lib_scheme as S, lib_molgen as G
+from . import common, lib_scheme as S, lib_molgen as G, lib_pipeline as P
 
-PROPS = ['PGA.Props.C04']
+PROPS = ['PGA.Props.C04', 'PGA.Props.Pipeline']
 GEN = ['Chars', 'MolQuery']
 OBLIGATIONS = ['PGA.Scheme.' + t for t in [
     'C04_cnt_union', 'C04_centres_union', 'C04_groupCount_union', 'C04_distinctSets_union',
     'C04_remap_additive', 'C04_descriptors_union']] + ['PGA.C04.' + t for t in [
-    'C04_load_connected', 'C04_embeds_union', 'C04_aromatize_union', 'C04_decompose_union', 'C04_decompose_mixture']]
+    'C04_load_connected', 'C04_embeds_union', 'C04_aromatize_union', 'C04_decompose_union', 'C04_decompose_mixture']] + [
+    'PGA.Pipeline.' + t for t in P.OBLIGATIONS_C04]
 RULE = ('cases = (scheme, A, B[, C]): all ordered pairs (incl. self-pairs) from a pool of fixed and grown molecules per scheme, '
         'some triples, pairs with an out-of-vocabulary component (failure propagation), for the nine shipped schemes. '
         'distinct = distinct (scheme, A, B); non-trivial = both components have >= 2 heavy atoms or one fails.')
@@ -35,6 +36,8 @@ def run(ctx):
         replay(ctx, rec)
     batch = []
     full = S.FullTie(ctx, max_cases=ctx.n(160, 2000))      # per library
+    pipe = P.PipeTie(ctx, max_cases=ctx.n(45, 500))        # per library: the composed pipeline (decompose, then estimate)
+    pipe.mixtures = collections.Counter()
     for name, lib in libs_:
         kind = 'gas' if name in ('BensonGA', 'PPY') else 'surface'
         pool = list(G.MIX_GAS if kind == 'gas' else G.MIX_SURFACE)
@@ -54,12 +57,14 @@ def run(ctx):
         for a, b in pairs[:ctx.n(260, 4000)]:
             if ctx.time_left() < 60:
                 break
-            check_pair(ctx, name, lib, [a, b], [res[a], res[b]], batch, full)
+            check_pair(ctx, name, lib, [a, b], [res[a], res[b]], batch, full, pipe)
         for _ in range(ctx.n(10, 200)):
             t = [rng.choice(pool) for _ in range(3)]
-            check_pair(ctx, name, lib, t, [res[x] for x in t], batch, full)
+            check_pair(ctx, name, lib, t, [res[x] for x in t], batch, full, pipe)
         full.run()
+        pipe.run()
     full.run()
+    pipe.run()
     # table observation behind C04_decompose_union: no pattern of any shipped scheme carries a molecule-level prefix (nor `*`)
     ctx.assumption('shipped_schemes_without_molecule_level_prefix_and_star', bool(full.flags) and all(f['nomolprefix'] and f['nostar'] for f in full.flags),
                    '%d scheme transmissions, all read by the model reader: noMolPrefix and noStar hold for each' % len(full.flags))
@@ -80,7 +85,7 @@ def run(ctx):
                 ctx.disagree('corr:c02.descriptors', where, impl['ok'], {k: float(v) for k, v in model.items()})
 
 
-def check_pair(ctx, name, lib, parts, results, batch, full=None):
+def check_pair(ctx, name, lib, parts, results, batch, full=None, pipe=None):
     mix = '.'.join(parts)
     r = S.impl_descriptors(lib, mix)
     if full is not None and not r.get('err', '').startswith('internal') and (full.max_cases is None or full.n < full.max_cases):
@@ -109,6 +114,8 @@ def check_pair(ctx, name, lib, parts, results, batch, full=None):
         ctx.count('failure_propagation')
         if 'err' not in r:
             ctx.violation('a mixture with a component that cannot be decomposed was decomposed', inp, 'PatternMatchError', r)
+        elif pipe is not None:
+            pipeline_step(ctx, name, lib, parts, True, pipe)
         return
     if 'err' in r:
         ctx.violation('a mixture of decomposable components cannot be decomposed', inp, 'sum of the components', r)
@@ -132,6 +139,8 @@ def check_pair(ctx, name, lib, parts, results, batch, full=None):
     total = {k: v for k, v in total.items()}
     if not S.same_counts(r['ok'], total):
         ctx.violation('descriptors of the mixture differ from the sum of the components\'', inp, total, r['ok'])
+    elif pipe is not None:
+        pipeline_step(ctx, name, lib, parts, sep, pipe)
     # tie + validation of the union structure RDKit gives (A-graph for mixtures)
     if len(batch) < ctx.n(400, 5000):
         mol = S.prepare(mix)
@@ -139,8 +148,23 @@ def check_pair(ctx, name, lib, parts, results, batch, full=None):
             batch.append((S.scheme_input(lib.scheme, mol), r, {'scheme': name, 'smiles': mix}))
 
 
+def pipeline_step(ctx, name, lib, parts, sep, pipe):
+    """C04 ∘ C01: the user's call chain `lib.Estimate(lib.GetDescriptors(x), 'thermochem')` on the mixture and on its components —
+    H/RT, Cp/R, S/R, G/RT at the library's temperatures are additive, failures propagate as PIPE_mixture_additive states, the
+    quadratic form gets the cross term; each molecule also goes to the composed Lean model (`pipe.estimate_batch`)."""
+    if pipe.mixtures[name] >= ctx.n(40, 500) or ctx.time_left() < 90:
+        return
+    pipe.mixtures[name] += 1
+    info, Ts, _ = pipe.open(name, lib)
+    outs = [pipe.add(name, lib, p) for p in parts]
+    mix = pipe.add(name, lib, '.'.join(parts))
+    P.mixture_oracle(ctx, name, info, parts, outs, mix, Ts, separated=sep)
+
+
 def replay(ctx, rec):
     inp = rec.get('input', rec)
+    if inp.get('pipeline'):
+        return P.replay(ctx, inp)
     before = len(ctx.violations)
     lib = dict(S.load_schemes())[inp['scheme']]
     check_pair(ctx, inp['scheme'], lib, inp['parts'], [S.impl_descriptors(lib, p) for p in inp['parts']], [])
